@@ -44,13 +44,20 @@ META = dict(
          "Discov instantiated per prefix, connection events shared); a sample is replayed with 3 goroutines calling "
          "Values() in a tight loop, and put/delete-only behaviours are replayed on the container with a reader queued on "
          "its lock when each event arrives (in-package, verdict still Values() at quiescence). "
+         "The scripted client serves any Get/Watch by etcd's range semantics over the whole key space; a sample of "
+         "behaviours runs with sibling services (svc2/..., svc-admin/...) registering and expiring in the same etcd. "
+         "spec/DiscovConn.tla (one notification per outage, at the next READY) is enumerated and replayed on the real "
+         "stateWatcher, and a sample of behaviours has its reloads triggered by that watcher from scripted state sequences "
+         "(TRANSIENT_FAILURE/SHUTDOWN, then CONNECTING/IDLE paths to READY). "
          "A sample of behaviours is replayed with Get faults (quick errors, Gets blocking until the request deadline; "
          "RequestTimeout shortened to 200 ms through the exported package variable) injected into a reload or the "
          "initial load: the predictions are unchanged and a load that never finishes although the registry answers "
          "again is a disagreement.",
     note="Trusted: TLC, the scripted EtcdClient (model etcd written for this check), the barrier (an event of unknown "
-         "type whose error log line acknowledges that the watch goroutine is idle again), cluster.reload called "
-         "synchronously instead of from the connection-state watcher (statwatcher.go is not exercised). Not covered: "
+         "type whose error log line acknowledges that the watch goroutine is idle again), in the generated behaviours "
+         "cluster.reload is called by the driver; in the connection-state stage the real stateWatcher calls it from a "
+         "scripted connectivity-state source (only the three wiring lines of cluster.watchConnState are repeated by the "
+         "test export, since ActiveConnection() returns a concrete *grpc.ClientConn). Not covered: "
          "subscribers attaching while the watch is down, "
          "watch channel errors/cancellation, compaction, a key changing its value without the subscriber seeing the "
          "delete (outside the statement's 'one value during its life' only if the key is re-created; probed, see "
@@ -132,6 +139,21 @@ def run(ctx):
     path, cnt = ctx.write_cases("multi.ndjson", mc_)
     ctx.samples += core.sample_of(mc_, 1)
     ctx.replay(PKG, OVERLAY, RUN, path, label="multi", env=dict(VERIF_C15_VALOF=ALLV), shards=16, binp=binp)
+    # sibling services sharing the subscriber's name as a string prefix
+    sc_ = sibling_cases(ctx, allc, 3000 if ctx.quick else 40000)
+    path, cnt = ctx.write_cases("siblings.ndjson", sc_)
+    ctx.replay(PKG, OVERLAY, RUN, path, label="siblings", env=dict(VERIF_C15_VALOF=ALLV), shards=16, binp=binp)
+    # the real connection-state watcher: alone against spec/DiscovConn.tla, and end to end (its
+    # notification starts the cluster's reload)
+    KC = dict(MaxLen=(5 if ctx.quick else 7))
+    cfg = core.render_cfg(spec="Spec", constants=KC, invariants=["OncePerOutage", "NoOutageNoNote", "Emit"])
+    r = ctx.tlc("DiscovConn", cfg, constants=KC, name="DiscovConn-gen", workers=4, timeout=900, heap="3g")
+    path, cnt = ctx.write_cases("statewatcher.ndjson", r.printed)
+    ctx.replay(PKG, OVERLAY, "^TestVerifC15StateWatcher$", path, label="statewatcher", shards=16, binp=binp)
+    cn_ = conn_cases(ctx, allc, 600 if ctx.quick else 8000)
+    path, cnt = ctx.write_cases("connstate.ndjson", cn_)
+    ctx.samples += core.sample_of(cn_, 1)
+    ctx.replay(PKG, OVERLAY, RUN, path, label="connstate", env=dict(VERIF_C15_VALOF=ALLV), shards=16, binp=binp)
     # concurrent Values() readers: (a) 3 goroutines reading in a tight loop while the events of a
     # behaviour are fed, (b) a reader queued on the container lock at the moment each event arrives
     rc_ = reader_cases(ctx, allc, 3000 if ctx.quick else 40000)
@@ -236,6 +258,63 @@ def container_cases(cases, n):
             out.append(raw)
         if len(out) >= n:
             break
+    return out
+
+
+RECOVERIES = [["TRANSIENT_FAILURE", "CONNECTING", "READY"], ["TRANSIENT_FAILURE", "IDLE", "CONNECTING", "READY"],
+              ["TRANSIENT_FAILURE", "READY"], ["TRANSIENT_FAILURE", "CONNECTING", "TRANSIENT_FAILURE", "CONNECTING", "READY"],
+              ["SHUTDOWN", "CONNECTING", "READY"], ["TRANSIENT_FAILURE", "IDLE", "READY"], ["SHUTDOWN", "READY"]]
+
+
+def conn_cases(ctx, cases, n):
+    """Reloads triggered by the real stateWatcher: behaviours without a self-resuming watch, their
+    disconnect steps become a reported failure state, their reload steps a scripted recovery
+    (a reload without a preceding disconnect is a short outage that lost nothing)."""
+    import json, random
+    rng = random.Random(ctx.seed * 15485863 + 15)
+    pool = [c for c in cases if '"op":"reload"' in c and '"op":"resume"' not in c]
+    out = []
+    for i, raw in enumerate(rng.sample(pool, min(n, len(pool)))):
+        steps = json.loads(raw)
+        steps[0]["conn"] = True
+        j = i
+        for st in steps:
+            if st["op"] == "disconnect":
+                st["states"] = [rng.choice(["TRANSIENT_FAILURE", "TRANSIENT_FAILURE", "SHUTDOWN"])]
+            elif st["op"] == "reload":
+                st["states"] = RECOVERIES[j % len(RECOVERIES)]
+                j += 1
+        out.append(json.dumps(steps, separators=(",", ":")))
+    return out
+
+
+SIBLINGS = [("svc2/k1", "vz"), ("svc-admin/k1", "vy"), ("svc2/k2", "vz"), ("svc0", "vx"), ("svc/../svd", "vw")][:4]
+
+
+def sibling_cases(ctx, cases, n):
+    """Other services whose names extend the subscriber's ("svc2/...", "svc-admin/...") register and
+    expire in the same etcd while the behaviour runs: the predictions do not change."""
+    import json, random
+    rng = random.Random(ctx.seed * 32452843 + 15)
+    pool = [c for c in cases if '"op":"reload"' in c]
+    out = []
+    for raw in rng.sample(pool, min(n, len(pool))):
+        steps = json.loads(raw)
+        present = set()
+        for st in steps:
+            if st["op"] in ("attach",) or rng.random() < 0.35:
+                continue
+            sib = []
+            for _ in range(rng.randint(1, 2)):
+                key, val = SIBLINGS[rng.randrange(len(SIBLINGS))]
+                if key in present and rng.random() < 0.5:
+                    present.discard(key)
+                    sib.append(dict(op="del", key=key, val=""))
+                else:
+                    present.add(key)
+                    sib.append(dict(op="put", key=key, val=val))
+            st["sib"] = sib
+        out.append(json.dumps(steps, separators=(",", ":")))
     return out
 
 
